@@ -3,6 +3,7 @@ import VaxisModel.Model.TextInput
 import VaxisModel.Spec.Editor
 import VaxisModel.Lemmas.Editor
 import VaxisModel.Lemmas.TextInput
+import VaxisModel.Gen.EditorKeys
 
 /-! C17 — line editors behave like an ideal grapheme line editor.
 
@@ -120,6 +121,39 @@ with a 2-column prompt shows the cursor in column 5. -/
 example :
     (match TextInput.draw (fun g : Nat => if g = 3 then 2 else 1) (TextInput.setContent TextInput.new [3, 0]) [0, 0] 12 with
      | .shown _ c => c | _ => -1) = 5 := by decide
+
+/-! ### Tie to the source through the extractor (`Gen/EditorKeys.lean`, regenerated every run) -/
+
+/-- The case labels of `switch msg.String()` in textinput.Update, in source order, are the labels
+the model dispatches on. -/
+theorem update_bindings_extracted :
+    Gen.EditorKeys.updateCases = bindingTable.map (·.1) := by decide
+
+/-- Every label of the table reaches the ideal operation of its arm (so `keyMeaning`, over which
+`textinput_refines` is proved, implements the extracted table); the default arm inserts the text
+unless Ctrl, Alt or Super is held. -/
+theorem update_bindings_meaning :
+    (∀ p ∈ bindingTable, ∀ k ∈ p.1, ∀ c a s, keyMeaning k c a s ([7] : List Nat) = p.2) ∧
+    keyMeaning "x" false false false ([7] : List Nat) = .insert [7] ∧
+    keyMeaning "Ctrl+x" true false false ([7] : List Nat) = .noop ∧
+    keyMeaning "Alt+x" false true false ([7] : List Nat) = .noop ∧
+    keyMeaning "Super+x" false false true ([7] : List Nat) = .noop := by decide
+
+theorem update_default_guards_extracted :
+    Gen.EditorKeys.updateDefaultGuards =
+      ["msg.Modifiers&vaxis.ModCtrl != 0", "msg.Modifiers&vaxis.ModAlt != 0", "msg.Modifiers&vaxis.ModSuper != 0"] := by decide
+
+/-- The scroll loop of textinput.Draw has the guard modelled in `TextInput.scrollLoop` (F47 fix) and
+scrolloff is 4. -/
+theorem draw_loop_extracted :
+    Gen.EditorKeys.drawLoopConds =
+      ["m.offset < m.cursor && widthToCursor(chars, m.cursor, m.offset)+col+scrolloff >= winW"] ∧
+    Gen.EditorKeys.textinputScrolloff = 4 := by decide
+
+/-- The `if` chain of TextField.HandleEvent (conditions in source order and the editing function
+each calls first) is the one `TextField.handleKey` transcribes. -/
+theorem handle_event_bindings_extracted :
+    Gen.EditorKeys.handleEventBindings = handleEventTable := by decide
 
 /-- Non-vacuity: "ab cd" + Ctrl+w deletes the last word; a 4-column window draws. -/
 example :
